@@ -26,6 +26,19 @@ def check(index, ctx):
                         ctx.violated("A2", f"{name}: {e['function'].split('.')[-1]}: {e['text']}", f"the weighting stores to self.{e.get('attr')}: weights depend on earlier calls", e["loc"])
     entry = index.get_function("torchjd.autojac.backward.backward")
     P, rs = _pipe.runs(index)
+    # torch.autograd.backward(tensors, inputs=[a, a]) accepts a tensor listed twice (and accumulates once): so must backward()
+    dup = None
+    for run in rs:
+        if run.entry != "backward" or dup is not None:
+            continue
+        for res in run.raising():
+            for e in res.events:
+                if e["kind"] == "decision" and not e.get("forced") and e.get("outcome") is not None and "len*[inputs]" in (e.get("key") or "") and res.exc.exc_name == "ValueError" \
+                        and res.events[-1].get("loc") and e is [x for x in res.events if x["kind"] == "decision"][-1]:
+                    dup = (run, res, e)
+    ctx.require(dup is None, "P", "backward: a tensor listed twice in `inputs` is accepted (as torch.autograd.backward does)", "the requested inputs are collapsed into a set before they become dictionary keys",
+                (f"on path [{dup[1].describe_path()[-100:]}] of {dup[0].label} the call raises ValueError because `inputs` holds the same tensor twice (`{dup[2]['test']}` at {dup[2]['loc']}): "
+                 "torch.autograd.backward(tensors, inputs=[a, a]) succeeds and accumulates once") if dup else "", dup[2]["loc"] if dup else entry.loc(), nontrivial=False)
     n = 0
     for run in rs:
         for res in _pipe.main_paths(run):
